@@ -883,7 +883,7 @@ func (x *Exec) applyAssigns(fr *Frame, st *State, fc *FuncContract, env *SpecEnv
 					old := st.heap[key]
 					nw := Var(x.fresh("Hn_"+sanitize(key)), old.Sort)
 					q := x.qvar("qn")
-					st.assumeRaw(Forall([]*Term{q}, Implies(Select(st.alloc, q), Eq(Select(nw, q), Select(old, q)))))
+					st.assumeRaw(Forall([]*Term{q}, Implies(allocAt(st.alloc, q), Eq(Select(nw, q), Select(old, q)))))
 					st.heap[key] = nw
 				}
 			}
@@ -1396,7 +1396,7 @@ func (x *Exec) checkCalleeFrame(fr *Frame, st *State, fc *FuncContract, name str
 				}
 				if strings.HasPrefix(b, "new:") {
 					if okc && strings.Contains(pat, strings.TrimPrefix(b, "new:")) {
-						alts = append(alts, Not(Select(Var("alloc0", ArrOf(SBool)), cv)))
+						alts = append(alts, Not(allocAt(Var("alloc0", SInt), cv)))
 					}
 					continue
 				}
@@ -1456,9 +1456,8 @@ func objAddr(v Value) (*Term, bool) {
 // calleeMayAllocate: a callee may have allocated objects; the set of allocated
 // addresses after the call is some superset of the one before.
 func (x *Exec) calleeMayAllocate(st *State) {
-	na := Var(x.fresh("alloc"), ArrOf(SBool))
-	q := x.qvar("qal")
-	st.assumeRaw(Forall([]*Term{q}, Implies(Select(st.alloc, q), Select(na, q))))
+	na := Var(x.fresh("alloc"), SInt)
+	st.assumeRaw(Ge(na, st.alloc))
 	st.alloc = na
 }
 
